@@ -3,6 +3,7 @@ package main
 import (
 	"fmt"
 	calctok "github.com/pip-services3-gox/pip-services3-expressions-gox/calculator/tokenizers"
+	"github.com/pip-services3-gox/pip-services3-expressions-gox/csv"
 	"github.com/pip-services3-gox/pip-services3-expressions-gox/tokenizers"
 	"sort"
 	"strings"
@@ -41,12 +42,27 @@ func init() {
 func execC16(seg []Ev) []Ev {
 	var st tokenizers.ISymbolState
 	var sc *sio.StringScanner
+	var via tokenizers.ITokenizer // when set: tokens are read through this tokenizer (its other states hand '-', '.', '/' over to the symbol state)
 	out := make([]Ev, 0, len(seg))
 	for _, in := range seg {
 		e := Ev{"op": in["op"]}
 		switch toStr(in["op"]) {
 		case "new":
-			if k, ok := in["kind"]; ok && toStr(k) == "expression" {
+			via = nil
+			if k, ok := in["kind"]; ok && toStr(k) == "csv" {
+				// the CSV symbol state: the four line ends registered at construction
+				st = csv.NewCsvSymbolState()
+				e["kind"] = "csv"
+				e["preset"] = []any{[]any{cps("\n"), tokenizers.Eol}, []any{cps("\r"), tokenizers.Eol}, []any{cps("\r\n"), tokenizers.Eol}, []any{cps("\n\r"), tokenizers.Eol}}
+			} else if ok && toStr(k) == "viatokenizer" {
+				// a generic tokenizer with a C++-style comment state on '/': its number and comment states meet '-', '.', '/' first
+				gt := generic.NewGenericTokenizer()
+				gt.SetCharacterState('/', '/', generic.NewCppCommentState())
+				setOpts(gt, 0)
+				st, via = gt.SymbolState(), gt
+				e["kind"] = "viatokenizer"
+				e["preset"] = []any{[]any{cps("<>"), tokenizers.Symbol}, []any{cps("<="), tokenizers.Symbol}, []any{cps(">="), tokenizers.Symbol}}
+			} else if ok && toStr(k) == "expression" {
 				// the expression tokenizer's symbol state: the same machinery with six symbols registered at construction
 				st = calctok.NewExpressionSymbolState()
 				e["kind"] = "expression"
@@ -65,8 +81,19 @@ func execC16(seg []Ev) []Ev {
 			r := toRunes(in["input"])
 			e["input"] = cpsR(r)
 			sc = sio.NewStringScanner(string(r))
+			if via != nil {
+				via.SetReader(sc)
+			}
 		case "next":
-			tok := st.NextToken(sc, nil)
+			var tok *tokenizers.Token
+			if via != nil {
+				tok = via.NextToken()
+				if tok == nil {
+					tok = tokenizers.NewToken(-1, "", 0, 0)
+				}
+			} else {
+				tok = st.NextToken(sc, nil)
+			}
 			e["obs"] = Ev{"type": tok.Type(), "text": cps(tok.Value()), "k": sc.VerifCursor()}
 		}
 		out = append(out, e)
@@ -319,6 +346,34 @@ func genC16(g *Gen) {
 				emit("many siblings under one node", steps)
 			}
 		}
+		// the CSV symbol state with further line-end symbols; symbols starting with '-', '.', '/' read through a tokenizer
+		emit2 := func(gen, kind string, steps []any) {
+			seg := []Ev{{"op": "new", "kind": kind}}
+			var regs []reg
+			switch kind {
+			case "csv":
+				regs = []reg{{[]rune("\n"), 2}, {[]rune("\r"), 2}, {[]rune("\r\n"), 2}, {[]rune("\n\r"), 2}}
+			case "viatokenizer":
+				regs = []reg{{[]rune("<>"), 7}, {[]rune("<="), 7}, {[]rune(">="), 7}}
+			}
+			for _, st := range steps {
+				switch x := st.(type) {
+				case reg:
+					regs = append(regs, x)
+					seg = append(seg, Ev{"op": "add", "sym": cpsR(x.s), "type": x.t})
+				case []rune:
+					seg = append(seg, Ev{"op": "scan", "input": cpsR(x)})
+					for k := count(regs, x); k > 0; k-- {
+						seg = append(seg, Ev{"op": "next"})
+					}
+				}
+			}
+			g.Run(gen, seg)
+		}
+		emit2("the CSV symbol state with further symbols", "csv", []any{[]rune("\r\n\r\n\n\n\r\r\n\r"), reg{[]rune("\r\n\r\n"), 13}, reg{[]rune("\n\n"), 12}, []rune("\r\n\r\n\n\n\r\n\r\r\n"),
+			reg{[]rune("\n"), 10}, reg{[]rune("\r\r"), 7}, []rune("\n\r\r\n\n\n\n\r\n\r\n;\r")})
+		emit2("symbols met first by the number and comment states", "viatokenizer", []any{[]rune("->-=..-./=/>"), reg{[]rune("->"), 10}, reg{[]rune(".."), 13}, reg{[]rune("/="), 10}, reg{[]rune("-."), 12},
+			[]rune("->-=..-./=/>-..->"), reg{[]rune("/"), 10}, reg{[]rune("-"), 12}, reg{[]rune("."), 13}, reg{[]rune("-=>"), 9}, []rune("/-.->-=>-=/=.."), reg{[]rune("-->"), 8}, []rune("-->--->..->")})
 		// symbols that contain U+0000; token types far outside the built-in range
 		emit("unusual symbol characters and type codes", []any{reg{[]rune("<\x00>"), 0x10001}, reg{[]rune("\x00\x00"), 70000}, reg{[]rune("a\x00"), -5}, []rune("<\x00><\x00x\x00\x00\x00a\x00a"),
 			reg{[]rune("<\x00"), 1 << 40}, []rune("<\x00><\x00x<"), reg{[]rune("=="), 32768}, reg{[]rune("="), 65536}, []rune("===")})
